@@ -42,6 +42,9 @@ func verifyFunc(P *Program, fi *FuncInfo, fn *ssa.Function) (vc *VC, rs []*Resul
 	// pass 1: discover every heap the function or its contracts touch, so that havoc
 	// (unknown calls, loop headers) in pass 2 covers heaps first used later on.
 	hs := map[string]string{}
+	if os.Getenv("GVC_SSA") != "" {
+		fn.WriteTo(os.Stderr)
+	}
 	func() {
 		defer func() { recover() }()
 		d := newVC(P, fi, fn)
